@@ -22,7 +22,10 @@ RULE = ("part A: random DAG (2-5 functions, shared parameters, defaults, bound v
         "functions x cache type {simple, lru, hybrid, disk} with randomised small capacities (max_size 1-3, LRU front 1-2, "
         "shared on/off) x history of <=8 steps drawn from pipeline(output, **cut) over a 2-value domain (root-only cuts, "
         "cuts supplying intermediates, mixed), run(full_output=True), repeat-previous-call, update_defaults, "
-        "update_bound, replace, sequential map; every step is executed on the cached pipeline and on an uncached twin. "
+        "update_bound (values incl. floats that differ in the tenth digit), function-level update_renames that swap two root "
+        "arguments, replace, sequential map, cache files wiped by another user of the directory; 30% directed scenarios (call, "
+        "update, repeat, update, repeat); Pipeline(lazy=True) for a quarter of the non-shared simple/lru cases; every step is "
+        "executed on the cached pipeline and on an uncached twin. "
         "part B: map pipeline with repeated input values and cached functions, shared LRU/Hybrid or disk cache of small "
         "capacity, SimExecutor(process) pre-empted at every manager RPC. distinct_nontrivial = distinct (pipeline, cache "
         "config, history) digests in which at least one call was answered from the cache (A) or the cache was hit or "
@@ -32,7 +35,7 @@ COMPONENTS = {
              "update_defaults/update_bound/replace", "run_map + _get_or_set_cache", "LRUCache/HybridCache/SimpleCache/DiskCache",
              "to_hashable"],
     "stub": ["multiprocessing.Manager", "clocks read for HybridCache durations (SimClock)", "process pool"],
-    "not_run": ["lazy pipelines", "default DiskCache directory (an explicit cache_dir in the scratch root is always given)"],
+    "not_run": ["lazy pipelines with hybrid/disk/shared caches", "default DiskCache directory (an explicit cache_dir in the scratch root is always given)"],
 }
 ASSUMPTIONS = [
     "the twin is the same construction with caching off; a step on which the twin raises places no constraint",
